@@ -18,20 +18,27 @@ namespace Req.Props.C02
 open Req.Proto Req.C02
 
 /-- **call_final_exchange.** For EVERY option combination and EVERY script: the caller-visible
-state of the `Response` a call returns equals the state after a single-exchange call that
-received only the exchange the final `resp.Response` came from (`src`). The digest
-middleware's own copy of "auto-read → bind → download" and `Client.roundTrip`'s agree, the 401
-leaves nothing behind, and so does no earlier attempt. -/
+state of the `Response` a call returns — status, header's exchange, `Err`, cache, `Body`, result
+and error slot — equals the state after a single-exchange call that received only the exchange
+the final `resp.Response` came from (`src`); and unless an error is recorded on the response,
+so does the record of what the download wrote. (With an error recorded the digest paths save
+nothing: /repo 835f2f1 returns from the middleware before `saveResponse` when binding the answer
+failed, and `handleDownload` leaves a Digest challenge alone.) The digest middleware's own copy of
+"auto-read → bind → save" and `Client.roundTrip`'s agree, the 401 leaves nothing behind, and so
+does no earlier attempt. -/
 theorem call_final_exchange (cfg : CCfg) (script : List Exch) :
-    (call cfg script).1.v = (single cfg (call cfg script).1.src).v :=
+    (call cfg script).1.v.core = (single cfg (call cfg script).1.src).v.core ∧
+    ((call cfg script).1.v.r.err = none → (call cfg script).1.v = (single cfg (call cfg script).1.src).v) :=
   callLoop_view cfg cfg.maxRetries none script
 
 /-- Consequently EVERY sequence of observation ops (`ToBytes/ToString/Bytes/String/Body.Read(n)/
 io.ReadAll(Body)/Body.Close`) on the returned `Response` shows exactly what it shows after the
 single-exchange call on the final exchange. -/
 theorem call_ops_final (cfg : CCfg) (script : List Exch) (ops : List Op) :
-    (call cfg script).1.v.r.run ops = (single cfg (call cfg script).1.src).v.r.run ops := by
-  rw [call_final_exchange]
+    ((call cfg script).1.v.r.run ops).1 = ((single cfg (call cfg script).1.src).v.r.run ops).1 := by
+  have h := congrArg (fun v => v.r) (call_final_exchange cfg script).1
+  simp only [CView.core] at h
+  rw [← Resp.run_noOut, h, Resp.run_noOut]
 
 /-- **call_no_stale_bytes.** Whatever ends up in the cache (`resp.body`: what `Bytes`, `String`,
 `ToBytes`, `ToString`, `Unmarshal*` return) or is bound to the success / error target is the
@@ -49,14 +56,22 @@ theorem call_no_stale_bytes (cfg : CCfg) (script : List Exch) :
       (∀ b, c.v.error = some b → b = cks.flatten ∧ cfg.base.errResult = true ∧ 399 < st) ∧
       (c.v.result = none ∨ c.v.error = none)) := by
   intro c
-  have hv : c.v = (single cfg c.src).v := call_final_exchange cfg script
+  have hcore : c.v.core = (single cfg c.src).v.core := (call_final_exchange cfg script).1
+  -- everything compared here is part of the core
+  have hh : c.v.hasResp = (single cfg c.src).v.hasResp := congrArg (fun v => v.hasResp) hcore
+  have htag : c.v.tag = (single cfg c.src).v.tag := congrArg (fun v => v.tag) hcore
+  have hres : c.v.result = (single cfg c.src).v.result := congrArg (fun v => v.result) hcore
+  have herr : c.v.error = (single cfg c.src).v.error := congrArg (fun v => v.error) hcore
+  have hst : c.v.r.status = (single cfg c.src).v.r.status := congrArg (fun v => v.r.status) hcore
+  have hcache : c.v.r.cache = (single cfg c.src).v.r.cache := congrArg (fun v => v.r.cache) hcore
+  have he : c.v.r.err = (single cfg c.src).v.r.err := congrArg (fun v => v.r.err) hcore
   refine ⟨fun h => ?_, fun tag st rd cks fin h => ?_⟩
-  · rw [hv, h, single_terr]
+  · rw [hh, hcache, hres, herr, he, h, single_terr]
     exact ⟨rfl, rfl, rfl, rfl, rfl⟩
-  · rw [hv, h]
+  · rw [hh, hst, htag, hcache, hres, herr, h]
     obtain ⟨h1, h2, h3, _, h5⟩ := single_slots cfg tag st rd cks fin
-    obtain ⟨ht, hh⟩ := single_tag cfg tag st rd cks fin
-    exact ⟨hh, single_status cfg tag st rd cks fin, ht, h5, h1, h2, h3⟩
+    obtain ⟨ht, hh'⟩ := single_tag cfg tag st rd cks fin
+    exact ⟨hh', single_status cfg tag st rd cks fin, ht, h5, h1, h2, h3⟩
 
 /-- **call_views_final.** The call ended on a response whose body ends with EOF (status `st`,
 body segments `cks`). Then, for every option combination and whatever happened before
@@ -84,8 +99,23 @@ theorem call_views_final (cfg : CCfg) (script : List Exch) (tag st : Nat) (rd : 
     (StreamCfg cfg.base st →
       v.r.err = none ∧ v.r.cache = none ∧ v.r.body = some (Body.transport cks .eof)) := by
   intro v
-  have hv : v = (single cfg (.resp tag st rd cks .eof)).v := by
-    rw [← hsrc]; exact call_final_exchange cfg script
+  obtain ⟨hcore, hfull⟩ := call_final_exchange cfg script
+  rw [hsrc] at hcore hfull
+  -- a single exchange whose body ends in EOF records no error
+  have hserr : (single cfg (.resp tag st rd cks .eof)).v.r.err = none := by
+    rw [single_r]
+    by_cases ha : autoRead cfg.base
+        { status := st, err := none, cache := none, body := some (Body.transport cks .eof), out := none } = true <;>
+    by_cases hb : wantsBind cfg.base st = true <;>
+    by_cases hs : cfg.base.save = true <;>
+    simp [afterRoundTrip, ha, hb, hs, parseResponseBody, handleDownload, Resp.toBytes, Body.readAll_transport,
+      Fin.toErr, Body.close]
+  have herr : v.r.err = none := by
+    have := congrArg (fun v => v.r.err) hcore
+    simp only [CView.core, Resp.noOut] at this
+    rw [this]
+    exact hserr
+  have hv : v = (single cfg (.resp tag st rd cks .eof)).v := hfull herr
   obtain ⟨hh, hst, htag, _, _, _, hnb⟩ := (call_no_stale_bytes cfg script).2 tag st rd cks .eof hsrc
   obtain ⟨_, _, _, hfill, _⟩ := single_slots cfg tag st rd cks .eof
   have hr : v.r = afterRoundTrip cfg.base st (Body.transport cks .eof) := by
@@ -121,7 +151,7 @@ holds after the call, whenever the final response was saved (`r.out = some d`: b
 * a file holds EXACTLY `d` — every download re-creates it;
 * a writer holds `pre ++ d`: what earlier ATTEMPTS wrote, then `d` (finding
   `retry-output-writer-accumulates`); without retries `pre` is empty — within one attempt
-  there is at most one download, the digest challenge is not saved (fixes/C02-2). -/
+  there is at most one download, the digest challenge is not saved (/repo 835f2f1). -/
 theorem call_output_final (cfg : CCfg) (script : List Exch) (d : Bytes)
     (h : (call cfg script).1.v.r.out = some d) :
     (cfg.file = true → (call cfg script).2.1 = some d) ∧
